@@ -32,6 +32,13 @@ Binding A
   * spec/AtomicPool.tla: every atomic type (and NaN / INF / -0) as map key, array member, set operand, in
     distinct-values / index-of / deep-equal / sort / min / max, as function argument, and every PAIR of types in
     comparisons, arithmetic, two-key maps;
+  * spec/DynContext.tla: 16 dynamic-context classes (document / element root, fragment, item None / atomic / element /
+    attribute / text, NO root at all, foreign item, with and without variables / documents / collections) x 64
+    expression classes (leading '/', '//', axes, root(), id(), position(), context-dependent functions ...);
+  * GAP CHARACTERS of Tokens.tla: one character per Unicode general category and every white-space-like character in
+    every gap, in the middle of every token and after its first character;
+  * numeric boundary classes for every parameter (INF, -INF, NaN, -0, 1.7e308, 5e-324) and fn:format-number over
+    numeric boundary values x one picture per picture feature (AtomicPool.tla, action Format);
   * the PUMP family of Tokens.tla: head unit^n mid post^n tail for n in {1, 30, 200} (unterminated string
     literals of both quote kinds, comments, digit / dot / name / exponent runs, nesting, long prefixes ...):
     10 s watchdog, and for pumps with inv = TRUE the outcome class must not depend on n;
@@ -391,6 +398,28 @@ def _winit(legal_parse, legal_eval, known=(), limit=True):
     except Exception:   # noqa
         _W['lock'] = None
     _W['known'] = list(known)
+    root_el = doc.getroot()
+    foreign = ET.fromstring('<z><y/></z>')
+
+    def node(path):
+        ctx = XPathContext(root=doc)
+        return next(iter(XPath2Parser().parse(path).select(ctx)))
+
+    full = dict(variables=dict(VARIABLES), documents={'a': doc}, collections={'c': [doc]}, default_collection=[doc],
+                text_resources={'t': 'x'})
+    _W['ctx_extra'] = {
+        'doc_root': lambda: XPathContext(root=doc), 'elem_root': lambda: XPathContext(root=root_el),
+        'fragment_true': lambda: XPathContext(root=root_el, fragment=True),
+        'fragment_false': lambda: XPathContext(root=root_el, fragment=False),
+        'item_none': lambda: XPathContext(root=doc, item=None), 'item_atomic': lambda: XPathContext(root=doc, item=1),
+        'item_elem': lambda: XPathContext(root=doc, item=root_el[0]), 'item_attr': lambda: XPathContext(root=doc, item=node('/a/@x')),
+        'item_text': lambda: XPathContext(root=doc, item=node('/a/b/text()')),
+        'noroot_atomic': lambda: XPathContext(item=1), 'noroot_elem': lambda: XPathContext(item=root_el[0]),
+        'noroot_attr': lambda: XPathContext(item=node('/a/@x')), 'noroot_text': lambda: XPathContext(item=node('/a/b/text()')),
+        'item_foreign': lambda: XPathContext(root=doc, item=foreign[0]),
+        'no_vars': lambda: XPathContext(root=doc, variables=None, documents=None, collections=None),
+        'full': lambda: XPathContext(root=doc, **full),
+    }
     _W.update(
         P={'1.0': XPath1Parser, '2.0': XPath2Parser, '3.0': XPath30Parser, '3.1': XPath31Parser},
         EPE=ElementPathError, doc=doc, legal={'parse': legal_parse, 'eval': legal_eval},
@@ -454,9 +483,8 @@ def run_text(version: str, text: str, parser_kwargs: dict | None = None, context
             phase, detail = 'eval', 'describe'
             _describe(obs, [] if not describe else [('root.source', lambda: root.source), ('root.tree', lambda: root.tree),
                             ('str(root)', lambda: str(root)), ('repr(root)', lambda: repr(root))])
-            for cname, mk in _W['ctx'].items():
-                if contexts is not None and cname not in contexts:
-                    continue
+            for cname in (contexts or tuple(_W['ctx'])):
+                mk = _W['ctx'].get(cname) or _W['ctx_extra'][cname]
                 for mode in ('evaluate', 'get_results'):
                     phase, detail = 'eval', f'{cname}/{mode}'
                     try:
@@ -526,6 +554,7 @@ class _Agg:
             if not _is_legal(phase, shape):
                 kind = 'uncoded' if shape[0] == 'err' else shape[0]
                 feat = escape_features(kind, phase, fp)
+                feat['ctx'] = detail.split('/')[0] if phase == 'eval' else None     # dynamic-context class
                 key = json.dumps(feat, sort_keys=True)
                 ent = self.fails.get(key)
                 case = dict(mode='text', version=version, text=text, phase=phase, detail=detail, origin=origin,
@@ -624,7 +653,8 @@ def mut_worker(job):
 # ---- function-call family (spec/ArgClass.tla) ----------------------------------------------------
 
 ARG_CLASSES = ["attr", "elem", "untyped_bad", "untyped_ok", "empty", "wrong_str", "wrong_num", "wrong_dur",
-               "wrong_numstr", "seq", "func", "map", "array", "bigneg", "hugeint", "baduri", "nul"]
+               "wrong_numstr", "seq", "func", "map", "array", "bigneg", "hugeint", "baduri", "nul",
+               "num_inf", "num_neginf", "num_nan", "num_negzero", "num_huge", "num_tiny"]
 # binding table: item type -> (an expression of that type, a valid lexical form of that type)
 TYPE_TABLE = {
     'xs:string': ("'a'", 'a'), 'xs:integer': ('1', '1'), 'xs:double': ('1.5e0', '1.5'), 'xs:decimal': ('1.5', '1.5'),
@@ -648,7 +678,8 @@ for _t in ('nonPositiveInteger', 'negativeInteger'):
     TYPE_TABLE['xs:' + _t] = ('-1', '-1')
 CLASS_TEXT = {'attr': '/a/@x', 'elem': '/a/b', 'untyped_bad': "xs:untypedAtomic('x')", 'empty': '()', 'wrong_str': "'s'",
               'wrong_num': '1', 'wrong_numstr': "'1'", 'wrong_dur': "xs:dayTimeDuration('PT1S')", 'func': 'fn:abs#1', 'map': 'map{}', 'array': '[]',
-              'bigneg': '-1000000000000', 'hugeint': '9' * 400, 'baduri': "'http://['", 'nul': "'\x00'"}
+              'bigneg': '-1000000000000', 'hugeint': '9' * 400, 'num_inf': "xs:double('INF')", 'num_neginf': "xs:double('-INF')",
+              'num_nan': "xs:double('NaN')", 'num_negzero': '-0e0', 'num_huge': '1.7e308', 'num_tiny': '5e-324', 'baduri': "'http://['", 'nul': "'\x00'"}
 
 
 COLL_CLASSES = ["coll_codepoint", "coll_html", "coll_uca", "coll_current", "coll_C", "coll_POSIX", "coll_Cutf8",
@@ -868,9 +899,13 @@ POOL_REP_TYPES = ['string', 'anyURI', 'boolean', 'decimal', 'integer', 'long', '
                   'duration', 'yearMonthDuration', 'dayTimeDuration', 'gYear', 'gYearMonth', 'gMonth', 'gMonthDay', 'gDay',
                   'hexBinary', 'base64Binary', 'QName', 'untypedAtomic', 'double-NaN', 'double-INF', 'float-NaN']
 POOL_VERSIONS = ['2.0', '3.1']
+_CTX_CLASSES = ['doc_root', 'elem_root', 'fragment_true', 'fragment_false', 'item_none', 'item_atomic', 'item_elem', 'item_attr',
+                'item_text', 'noroot_atomic', 'noroot_elem', 'noroot_attr', 'noroot_text', 'item_foreign', 'no_vars', 'full']
 
 
 def pool_text(use: str, t1: str, t2: str) -> str:
+    if use == 'format-number':
+        return f'format-number({NUM_VALUES[t1]}, {PICTURES[t2]})'
     tpl = POOL_USES1.get(use) or POOL_USES2[use]
     out = re.sub(r'\bV\b', lambda m: POOL_LITERAL[t1], tpl)
     if t2 != '-':
@@ -883,6 +918,65 @@ def pool_worker(job):
     agg = _Agg()
     for use, t1, t2, v in job:
         agg.judge(v, pool_text(use, t1, t2), dict(kind='atomic-pool', use=use, types=[t1, t2]), contexts=('doc',))
+    return agg.result()
+
+
+CTX_EXPR = {
+    'slash': '/', 'slash-step': '/a', 'dslash-step': '//a', 'dslash-star': '//*', 'dslash-pred': '//b[1]', 'paren-dslash': '(//a)[1]',
+    'dot': '.', 'dotdot': '..', 'child': 'child::a', 'descendant': 'descendant::b', 'descendant-or-self': 'descendant-or-self::node()',
+    'parent': 'parent::*', 'ancestor': 'ancestor::*', 'ancestor-or-self': 'ancestor-or-self::node()', 'following': 'following::*',
+    'following-sibling': 'following-sibling::*', 'preceding': 'preceding::*', 'preceding-sibling': 'preceding-sibling::node()',
+    'attribute': '@x', 'self': 'self::a', 'namespace': 'namespace::*', 'relative-dslash': './/b', 'root-fn': 'root()',
+    'root-fn-dot': 'root(.)', 'id-fn': "id('a')", 'idref-fn': "idref('a')", 'position': 'position()', 'last': 'last()',
+    'name': 'name()', 'local-name': 'local-name()', 'string': 'string()', 'number': 'number()', 'string-length': 'string-length()',
+    'normalize-space': 'normalize-space()', 'lang': "lang('en')", 'base-uri': 'base-uri()', 'document-uri': 'document-uri(/)',
+    'path': 'path()', 'has-children': 'has-children()', 'innermost': 'innermost(//a)', 'outermost': 'outermost(//a)',
+    'data': 'data()', 'nilled': 'nilled()', 'generate-id': 'generate-id()', 'variable': '$x', 'undefined-variable': '$undefined',
+    'doc': "doc('a')", 'doc-available': "doc-available('a')", 'collection': 'collection()', 'uri-collection': 'uri-collection()',
+    'unparsed-text': "unparsed-text('t')", 'current-dateTime': 'current-dateTime()', 'implicit-timezone': 'implicit-timezone()',
+    'default-collation': 'default-collation()', 'static-base-uri': 'static-base-uri()', 'count-dslash': 'count(//a)',
+    'union-paths': '//a | /a/b', 'predicate-position': 'a[position() = last()]', 'arith-path': '1 + //a',
+    'for-path': 'for $n in //a return name($n)', 'simple-map': '//a ! name()', 'context-item-arith': '. + 1',
+    'element-with-id': "element-with-id('a')", 'lookup-dot': '?x',
+}
+NUM_VALUES = {'zero': '0', 'one': '1', 'minus-one': '-1', 'decimal': '1234.5678', 'small': '0.000012', 'large': '12345678901234567890.5',
+              'integer-huge': '9' * 400, 'double': '1.5e0', 'double-huge': '1.7e308', 'double-tiny': '5e-324', 'INF': "xs:double('INF')",
+              'minus-INF': "xs:double('-INF')", 'NaN': "xs:double('NaN')", 'minus-zero': '-0e0', 'float-INF': "xs:float('INF')", 'empty': '()'}
+PICTURES = {'digit': "'0'", 'optional': "'#'", 'grouping': "'#,##0'", 'fraction': "'0.00'", 'optional-fraction': "'0.0##'", 'percent': "'0%'",
+            'per-mille': "'0\u2030'", 'exponent': "'0.0e0'", 'exponent-wide': "'00.000e00'", 'exponent-optional': "'#.#e0'",
+            'sub-pictures': "'0.0;(0.0)'", 'prefix-suffix': "'[0.0]'", 'named-format': "'0.0', 'de'", 'unknown-format': "'0.0', 'nope'",
+            'malformed-two-points': "'0.0.0'", 'malformed-empty': "''", 'only-passive': "'abc'"}
+
+
+def ctx_worker(job):
+    """job: list of (context class, expression class, version)  (spec/DynContext.tla)."""
+    agg = _Agg()
+    for c, e, v in job:
+        agg.judge(v, CTX_EXPR[e], dict(kind='dynamic-context', context=c, expression=e), contexts=(c,))
+    return agg.result()
+
+
+def gap_worker(job):
+    """job: list of (seed tokens, char record, place).  Tokens are joined by one space; the character goes into
+    every gap (replacing the space / at both ends), into the middle of every token, or after its first character."""
+    agg = _Agg()
+    for seed, ch, place in job:
+        c = chr(ch['cp'])
+        texts = []
+        if place == 'gap':
+            for i in range(len(seed) + 1):
+                left, right = ' '.join(seed[:i]), ' '.join(seed[i:])
+                texts.append(left + c + right)
+                texts.append(left + ' ' + c + ' ' + right)
+        else:
+            for i, t in enumerate(seed):
+                k = len(t) // 2 if place == 'middle' else 1
+                if 0 < k <= len(t) and (place == 'after-first' or len(t) > 1):
+                    texts.append(' '.join(list(seed[:i]) + [t[:k] + c + t[k:]] + list(seed[i + 1:])))
+        for text in texts:
+            for v in VERSIONS:
+                agg.judge(v, text, dict(kind='gap-char', seed=' '.join(seed), char=ch['id'], codepoint=ch['cp'], place=place),
+                          contexts=('vars',))
     return agg.result()
 
 
@@ -1280,9 +1374,11 @@ def run(chk: core.Check) -> None:
     # ---- 2c. AtomicPool: every atomic type in every hashing / comparing / sorting position ------------
     t0 = time.time()
     all_types = sorted(POOL_LITERAL)
-    pool_cfgs = [('all', dict(Types=set(all_types), Uses1=set(POOL_USES1), Uses2=set(POOL_USES2)))] if chk.tier == 'thorough' else \
-                [('one', dict(Types=set(all_types), Uses1=set(POOL_USES1), Uses2={'value-eq'})),
-                 ('two', dict(Types=set(POOL_REP_TYPES), Uses1={'map-key'}, Uses2=set(POOL_USES2)))]
+    fmt = dict(NumValues=set(NUM_VALUES), Pictures=set(PICTURES))
+    nofmt = dict(NumValues={'one'}, Pictures={'digit'})
+    pool_cfgs = [('all', dict(Types=set(all_types), Uses1=set(POOL_USES1), Uses2=set(POOL_USES2), **fmt))] if chk.tier == 'thorough' else \
+                [('one', dict(Types=set(all_types), Uses1=set(POOL_USES1), Uses2={'value-eq'}, **fmt)),
+                 ('two', dict(Types=set(POOL_REP_TYPES), Uses1={'map-key'}, Uses2=set(POOL_USES2), **nofmt))]
     pjobs = set()
     for pname, consts in pool_cfgs:
         wd = os.path.join(chk.scratch, 'pool_' + pname)
@@ -1300,7 +1396,7 @@ def run(chk: core.Check) -> None:
             if st['use'] != 'none':
                 pjobs.add((st['use'], st['t1'], st['t2']))
         del g
-    pjobs = sorted((u, a, b, v) for u, a, b in pjobs for v in POOL_VERSIONS)
+    pjobs = sorted((u, a, b, v) for u, a, b in pjobs for v in (('3.0', '3.1') if u == 'format-number' else POOL_VERSIONS))
     pjobs.sort(key=lambda j: hash(j) % 1009)
     for st, fails, nontriv, samples in core.pool_map(pool_worker, chunks(pjobs, PROCS * 8), procs=PROCS,
                                                      initializer=_winit, initargs=initargs):
@@ -1311,6 +1407,29 @@ def run(chk: core.Check) -> None:
             chk.sample(s, cap=8)
     chk.coverage['atomic_pool_expressions'] = len(pjobs) // len(POOL_VERSIONS)
     print(f'  AtomicPool: expressions={len(pjobs) // len(POOL_VERSIONS)} x {len(POOL_VERSIONS)} versions  total={time.time() - t0:.1f}s', flush=True)
+
+    # ---- 2d. DynContext: every context class x every expression class ---------------------------------
+    t0 = time.time()
+    wd = os.path.join(chk.scratch, 'dynctx')
+    dot = os.path.join(wd, 'g.dot')
+    r = tla.require_ok(tla.run_tlc('DynContext', tla.cfg_text(dict(Ctxs=set(_CTX_CLASSES), Exprs=set(CTX_EXPR)), invariants=['TypeOK']),
+                                   wd, dump_dot=dot, workers=2), 'DynContext')
+    chk.model('DynContext', r)
+    g = tla.load_dot(dot)
+    os.remove(dot)
+    if len(g.states) != next(printed(r.output, 'ctx_plan_size'), (0,))[0] or len(g.states) < 500:
+        raise tla.MachineryError(f'DynContext plan incomplete: {len(g.states)} states')
+    xjobs = sorted((st['ctx'], st['expr'], v) for st in g.states.values() if st['ctx'] != '-' for v in VERSIONS)
+    chk.add('transitions', len(g.edges))
+    del g
+    xjobs.sort(key=lambda j: hash(j) % 1009)
+    for st, fails, nontriv, samples in core.pool_map(ctx_worker, chunks(xjobs, PROCS * 4), procs=PROCS,
+                                                     initializer=_winit, initargs=initargs):
+        stats.update(st)
+        merge_fails(all_fails, fails)
+        nontrivial |= nontriv
+    chk.coverage['dynamic_context_pairs'] = len(xjobs) // len(VERSIONS)
+    print(f'  DynContext: pairs={len(xjobs) // len(VERSIONS)} x {len(VERSIONS)} versions  total={time.time() - t0:.1f}s', flush=True)
 
     # ---- 3. ParserLife: model, self-tests, histories ------------------------------------
     wd = os.path.join(chk.scratch, 'life')
@@ -1462,6 +1581,7 @@ def run(chk: core.Check) -> None:
         fh.write('ASSUME PrintPlan == \\A k \\in 1..Len(GenLens) : ExprChosen(k) => PrintT(<<"mut", k, Chosen(k, GenLens[k])>>)\n')
         fh.write('ASSUME PrintSeeds == \\A k \\in 1..Len(Seeds) : PrintT(<<"seedmut", k, Seeds[k], MutOps(Len(Seeds[k]), Alphabet)>>)\n')
         fh.write('ASSUME PrintStress == PrintT(<<"stress", Stress>>)\n')
+        fh.write('ASSUME PrintGaps == PrintT(<<"gapchars", GapChars>>) /\\ PrintT(<<"gapseeds", GapSeeds>>) /\\ PrintT(<<"gapplaces", GapPlaces>>)\n')
         fh.write('ASSUME PrintPumps == PrintT(<<"pumps", Pumps>>) /\\ PrintT(<<"pump_counts", PumpCounts>>)\n====\n')
     cfg = tla.cfg_text(dict(Alphabet=set(all_tokens), MaxLen=0, **base), invariants=['TypeOK'])
     r = tla.require_ok(tla.run_tlc('C03MutPlan', cfg, os.path.join(chk.scratch, 'mutplan'), workers=1,
@@ -1480,6 +1600,11 @@ def run(chk: core.Check) -> None:
     stress = [dict(v) for v in next(printed(r.output, 'stress'), (frozenset(),))[0]]
     pumps = sorted((dict(v) for v in next(printed(r.output, 'pumps'), (frozenset(),))[0]), key=lambda p: p['id'])
     pump_counts = sorted(next(printed(r.output, 'pump_counts'), (frozenset(),))[0])
+    gapchars = sorted((dict(v) for v in next(printed(r.output, 'gapchars'), (frozenset(),))[0]), key=lambda c: c['cp'])
+    gapseeds = list(next(printed(r.output, 'gapseeds'), ((),))[0])
+    gapplaces = sorted(next(printed(r.output, 'gapplaces'), (frozenset(),))[0])
+    if (len(gapchars) < 10 or len(gapseeds) < 3 or not gapplaces) and not _too_many_hangs():
+        raise tla.MachineryError('TLC printed no gap-character plan')
     del r
     if (len(pumps) < 20 or len(pump_counts) < 2) and not _too_many_hangs():
         raise tla.MachineryError('TLC printed no pump plan')
@@ -1490,12 +1615,15 @@ def run(chk: core.Check) -> None:
     n_seed = sum(len(ms) for _, _, ms in sjobs) + len(sjobs)
     for worker, jobs_ in ((seed_worker, chunks(seed_units, PROCS * 4)),
                           (stress_worker, [[v] for v in sorted(stress, key=lambda v: (v['pre'], v['n']))]),
-                          (pump_worker, [[(p, pump_counts, v)] for p in pumps for v in VERSIONS])):
+                          (pump_worker, [[(p, pump_counts, v)] for p in pumps for v in VERSIONS]),
+                          (gap_worker, [[(tuple(sd), ch, pl)] for sd in gapseeds for ch in gapchars for pl in gapplaces])):
         for st, fails, nontriv, samples in core.pool_map(worker, jobs_, procs=PROCS, initializer=_winit, initargs=initargs):
             stats.update(st)
             merge_fails(all_fails, fails)
             nontrivial |= nontriv
     chk.add('transitions', n_seed + len(stress) + len(pumps) * len(pump_counts))
+    chk.coverage['gap_characters'] = len(gapchars)
+    chk.coverage['gap_seeds'] = len(gapseeds)
     chk.coverage['pumps'] = len(pumps)
     chk.coverage['pump_counts'] = pump_counts
     chk.coverage['seed_expressions'] = len(sjobs)
@@ -1588,7 +1716,7 @@ def run(chk: core.Check) -> None:
         if 'sym' in jf and jf.get('where') != 'recursion' and \
                 not any(core.match_pattern(k['fingerprint'], jf) for k in chk.known):
             ent = [dict(ent[0]), *ent[1:]]
-            ent[2] = dict(ent[2], token_symbol=ent[0].pop('sym'))
+            ent[2] = dict(ent[2], token_symbol=ent[0].pop('sym'), context_class=ent[0].pop('ctx', None))
         merge_fails(merged, [ent])
     for key in sorted(merged):
         report(chk, merged[key])
